@@ -233,7 +233,7 @@ pub fn random_packet(rng: &mut Rng) -> Vec<u8> {
     };
     let id = *rng.pick(&[4u8, 4 + slots() as u8, 5, 6, 255]);
     let reuse = rng.chance(1, 6);
-    let ptype = *rng.pick(&[0x0800u16, 0x0600, 0xFFFF, 0x0081, 0x0042, 0x0043, 0x0099, 0x0100, 0x0211, 0x0544]);
+    let ptype = *rng.pick(&[0x0800u16, 0x0600, 0xFFFF, 0x0081, 0x0042, 0x0043, 0x0099, 0x0100, 0x0211, 0x0544, 0x05FF, 0x01FF, 0x00FF, 0x0000]);
     let mut v = match rng.below(8) {
         0 => {
             let k = rng.range(0, 80);
@@ -247,7 +247,7 @@ pub fn random_packet(rng: &mut Rng) -> Vec<u8> {
         }
         6 if rng.chance(1, 2) => {
             // a well-formed chain of optional extensions ending at a boundary protocol type
-            let mut p = complete(&pdu, &label, reuse, *rng.pick(&[0x0100u16, 0x0211, 0x0322]));
+            let mut p = complete(&pdu, &label, reuse, *rng.pick(&[0x0100u16, 0x0211, 0x0322, 0x05FF, 0x04FF]));
             let dl = 2 * ((p.ptype >> 8) as usize - 1);
             let mut chain = rng.bytes(dl);
             chain.extend(rng.pick(&[0x0600u16, 0x0601, 0x0800, 0xFFFF, 0x0600]).to_be_bytes());
@@ -256,7 +256,7 @@ pub fn random_packet(rng: &mut Rng) -> Vec<u8> {
         }
         6 => {
             // extension chain with random content
-            let mut p = complete(&pdu, &label, reuse, *rng.pick(&[0x0100u16, 0x0211, 0x0322, 0x0433, 0x0544, 0x0042, 0x0043, 0x0081]));
+            let mut p = complete(&pdu, &label, reuse, *rng.pick(&[0x0100u16, 0x0211, 0x0322, 0x0433, 0x0544, 0x0042, 0x0043, 0x0081, 0x05FF, 0x04FF, 0x01FF]));
             let k = rng.range(0, 14);
             p.chain = rng.bytes(k);
             p.ser()
